@@ -470,6 +470,8 @@ ID = "src/engine/search/iterative_deepening.rs"
 TC = "src/engine/search/time_control.rs"
 SM = "src/engine/search/mod.rs"
 MUTANTS = [
+    {"name": "poll throttle by exact match on the node count (seed C09-11a)", "expect": "C09-POLL/poll/throttle-exact",
+     "edits": __import__("shared_mutants").edits_from_patch("seeded/C09-11a/patch.diff")},
     {"name": "TimeStrategy::start() at the top of search() lowers the stop flag (seed C09-10a)", "expect": "C09-POLL/flag-writer/start",
      "edits": __import__("shared_mutants").edits_from_patch("seeded/C09-10a/patch.diff")},
     {"name": "poll margin subtracted from a fixed move time (seed C09-5b)", "expect": "C09-POLL/panic",
